@@ -24,6 +24,7 @@ class World:
         self.filevars = {}    # path -> {name: VarDef}
         self.known_types = set()
         self.errors = []
+        self.proto_defaults = {}
         paths = []
         if files is None:
             for g in SRC_GLOBS:
@@ -67,6 +68,16 @@ class World:
                 key = strip_ns(fd.qname)
                 self.funcs.setdefault(key, []).append(fd)
                 self.by_last.setdefault(key.split('::')[-1], []).append(fd)
+            for name, plist in u.proto_defaults.items():
+                self.proto_defaults.setdefault(strip_ns(name), []).extend(plist)
+        # default arguments given only in the declaration are attached to the definition
+        for key, fds in self.funcs.items():
+            for fd in fds:
+                for params in self.proto_defaults.get(key, []):
+                    if len(params) == len(fd.params) and all(strip_ns(a.type.name).split('::')[-1] == strip_ns(b.type.name).split('::')[-1] for a, b in zip(params, fd.params)):
+                        for a, b in zip(params, fd.params):
+                            if b.default is None and a.default is not None:
+                                b.default = a.default
 
     # ---- lookup -------------------------------------------------------
     def rel(self, path):
@@ -83,7 +94,20 @@ class World:
         return c
 
     def body(self, fd):
-        return cxx.parse_body(fd, known_types=self.known_types)
+        first = fd.body is None
+        b = cxx.parse_body(fd, known_types=self.known_types)
+        lu = getattr(fd, 'local_unit', None)
+        if first and lu is not None and (lu.classes or lu.funcs):
+            # classes defined inside the function body
+            for name, cd in lu.classes.items():
+                self.classes.setdefault(name, cd)
+                self.known_types.add(name)
+            for f2 in lu.funcs:
+                key = strip_ns(f2.qname)
+                if f2 not in self.funcs.get(key, []):
+                    self.funcs.setdefault(key, []).append(f2)
+                    self.by_last.setdefault(key.split('::')[-1], []).append(f2)
+        return b
 
     def bases(self, cls):
         out = []
